@@ -50,7 +50,7 @@ def export_panic_rule(crate, prop):
     sites = []
     for b in crate.bodies:
         if b.path in reach:
-            for s in panics.sites_in(b):
+            for s in panics.sites_in(b, crate):
                 s["caller"] = fold(s["caller"])
                 sites.append(s)
     just = justified(crate.name)
@@ -124,7 +124,7 @@ def lock_panic_rule(crate, prop, fn_path="export::export_and_merge"):
         per = {}
         for p in sorted(seen):
             for bb in crate.by_path.get(p, []):
-                for s in panics.sites_in(bb):
+                for s in panics.sites_in(bb, crate):
                     if not s.get("discharged"):
                         per.setdefault(fold(p), []).append(s)
         for p, ss in sorted(per.items()):
